@@ -14,14 +14,21 @@
    from the real objects) and feeds it to the property observer of TelnetNegObs;
    the property is NoViol (plus the temporal properties in TelnetNegMC).
 
-   cfg = [nopt, accL, accR, maxreq]: accL[e][o] / accR[e][o] = result of the
+   Re-entrancy: the callback of a request Deferred may synchronously issue a follow-up request
+   (any kind, any option, same endpoint).  In the code that call happens inside the handler, after
+   the assignments that precede d.callback()/d.errback() and before the statements that follow it
+   (enableLocal/disableRemote/assert: no effect on the option state).  Here the handler step sets
+   reent = <<e, k, o>> and the only step possible next is that request (event field re = TRUE).
+
+   cfg = [nopt, accL, accR, maxreq, reent]: accL[e][o] / accR[e][o] = result of the
    application's enableLocal / enableRemote; a side only issues will(o) if it
    accepts o locally and do(o) if it accepts o remotely ("policies accept the
    options they themselves request").                                         *)
 EXTENDS TelnetNegObs
 
-VARIABLES cfg, us, him, obs, last
-vars == <<cfg, us, him, obs, last>>
+VARIABLES cfg, us, him, obs, last,
+          reent   \* <<>>, or <<e, k, o>>: the callback of a Deferred that has just fired on e is about to call k(o)
+vars == <<cfg, us, him, obs, last, reent>>
 
 E2 == {1, 2}
 Opts == 1..cfg.nopt
@@ -33,6 +40,7 @@ InitWith(c) ==
     /\ him = [e \in E2 |-> [o \in 1..c.nopt |-> P0]]
     /\ obs = ObsInit
     /\ last = [e |-> "init"]
+    /\ reent = <<>>
 
 Emit(ev) == /\ last' = ev
             /\ obs' = Observe(obs, cfg, ev)
@@ -41,38 +49,40 @@ Emit(ev) == /\ last' = ev
 (* The four public requests.  id = number of this call's Deferred. *)
 NextId == Len(obs.status) + 1
 ReqEv(e, k, o, sent, fired) ==
-    [e |-> "req", p |-> e, k |-> k, o |-> o, id |-> NextId, sent |-> sent, fired |-> fired, exc |-> ""]
+    [e |-> "req", p |-> e, k |-> k, o |-> o, id |-> NextId, sent |-> sent, fired |-> fired, exc |-> "", re |-> reent # <<>>]
 Busy(e, o) == us[e][o].neg \/ him[e][o].neg
-CanReq(e, o) == e \in E2 /\ o \in Opts /\ NextId <= cfg.maxreq
+CanReq(e, k, o) == /\ e \in E2 /\ o \in Opts /\ NextId <= cfg.maxreq
+                   /\ (reent = <<>> \/ reent = <<e, k, o>>)
+                   /\ reent' = <<>>
 
 ReqFail(e, k, o, why) == Emit(ReqEv(e, k, o, <<>>, << <<NextId, why>> >>)) /\ UNCHANGED <<cfg, us, him>>
 
-WillBusy(e, o) == CanReq(e, o) /\ cfg.accL[e][o] /\ Busy(e, o) /\ ReqFail(e, "will", o, "AlreadyNegotiating")
-WillAlready(e, o) == CanReq(e, o) /\ cfg.accL[e][o] /\ ~Busy(e, o) /\ us[e][o].st = "yes"
+WillBusy(e, o) == CanReq(e, "will", o) /\ cfg.accL[e][o] /\ Busy(e, o) /\ ReqFail(e, "will", o, "AlreadyNegotiating")
+WillAlready(e, o) == CanReq(e, "will", o) /\ cfg.accL[e][o] /\ ~Busy(e, o) /\ us[e][o].st = "yes"
                      /\ ReqFail(e, "will", o, "AlreadyEnabled")
-WillSend(e, o) == /\ CanReq(e, o) /\ cfg.accL[e][o] /\ ~Busy(e, o) /\ us[e][o].st = "no"
+WillSend(e, o) == /\ CanReq(e, "will", o) /\ cfg.accL[e][o] /\ ~Busy(e, o) /\ us[e][o].st = "no"
                   /\ us' = [us EXCEPT ![e][o].neg = TRUE, ![e][o].d = NextId]
                   /\ Emit(ReqEv(e, "will", o, << <<"WILL", o>> >>, <<>>))
                   /\ UNCHANGED <<cfg, him>>
 
-WontBusy(e, o) == CanReq(e, o) /\ Busy(e, o) /\ ReqFail(e, "wont", o, "AlreadyNegotiating")
-WontAlready(e, o) == CanReq(e, o) /\ ~Busy(e, o) /\ us[e][o].st = "no" /\ ReqFail(e, "wont", o, "AlreadyDisabled")
-WontSend(e, o) == /\ CanReq(e, o) /\ ~Busy(e, o) /\ us[e][o].st = "yes"
+WontBusy(e, o) == CanReq(e, "wont", o) /\ Busy(e, o) /\ ReqFail(e, "wont", o, "AlreadyNegotiating")
+WontAlready(e, o) == CanReq(e, "wont", o) /\ ~Busy(e, o) /\ us[e][o].st = "no" /\ ReqFail(e, "wont", o, "AlreadyDisabled")
+WontSend(e, o) == /\ CanReq(e, "wont", o) /\ ~Busy(e, o) /\ us[e][o].st = "yes"
                   /\ us' = [us EXCEPT ![e][o].neg = TRUE, ![e][o].d = NextId]
                   /\ Emit(ReqEv(e, "wont", o, << <<"WONT", o>> >>, <<>>))
                   /\ UNCHANGED <<cfg, him>>
 
-DoBusy(e, o) == CanReq(e, o) /\ cfg.accR[e][o] /\ Busy(e, o) /\ ReqFail(e, "do", o, "AlreadyNegotiating")
-DoAlready(e, o) == CanReq(e, o) /\ cfg.accR[e][o] /\ ~Busy(e, o) /\ him[e][o].st = "yes"
+DoBusy(e, o) == CanReq(e, "do", o) /\ cfg.accR[e][o] /\ Busy(e, o) /\ ReqFail(e, "do", o, "AlreadyNegotiating")
+DoAlready(e, o) == CanReq(e, "do", o) /\ cfg.accR[e][o] /\ ~Busy(e, o) /\ him[e][o].st = "yes"
                    /\ ReqFail(e, "do", o, "AlreadyEnabled")
-DoSend(e, o) == /\ CanReq(e, o) /\ cfg.accR[e][o] /\ ~Busy(e, o) /\ him[e][o].st = "no"
+DoSend(e, o) == /\ CanReq(e, "do", o) /\ cfg.accR[e][o] /\ ~Busy(e, o) /\ him[e][o].st = "no"
                 /\ him' = [him EXCEPT ![e][o].neg = TRUE, ![e][o].d = NextId]
                 /\ Emit(ReqEv(e, "do", o, << <<"DO", o>> >>, <<>>))
                 /\ UNCHANGED <<cfg, us>>
 
-DontBusy(e, o) == CanReq(e, o) /\ Busy(e, o) /\ ReqFail(e, "dont", o, "AlreadyNegotiating")
-DontAlready(e, o) == CanReq(e, o) /\ ~Busy(e, o) /\ him[e][o].st = "no" /\ ReqFail(e, "dont", o, "AlreadyDisabled")
-DontSend(e, o) == /\ CanReq(e, o) /\ ~Busy(e, o) /\ him[e][o].st = "yes"
+DontBusy(e, o) == CanReq(e, "dont", o) /\ Busy(e, o) /\ ReqFail(e, "dont", o, "AlreadyNegotiating")
+DontAlready(e, o) == CanReq(e, "dont", o) /\ ~Busy(e, o) /\ him[e][o].st = "no" /\ ReqFail(e, "dont", o, "AlreadyDisabled")
+DontSend(e, o) == /\ CanReq(e, "dont", o) /\ ~Busy(e, o) /\ him[e][o].st = "yes"
                   /\ him' = [him EXCEPT ![e][o].neg = TRUE, ![e][o].d = NextId]
                   /\ Emit(ReqEv(e, "dont", o, << <<"DONT", o>> >>, <<>>))
                   /\ UNCHANGED <<cfg, us>>
@@ -87,7 +97,12 @@ Req(e, k, o) ==
 (* Delivery of the oldest message in flight to e: telnet_WILL/WONT/DO/DONT look the
    handler up by (state, negotiating) of the perspective the command talks about. *)
 HeadMsg(e) == Head(obs.chan[e])
-Has(e, c) == e \in E2 /\ obs.chan[e] # <<>> /\ HeadMsg(e)[1] = c /\ HeadMsg(e)[2] \in Opts
+Has(e, c) == reent = <<>> /\ e \in E2 /\ obs.chan[e] # <<>> /\ HeadMsg(e)[1] = c /\ HeadMsg(e)[2] \in Opts
+(* what the callback of the Deferred d fired on e does next: nothing, or one follow-up request *)
+Allowed(e, k, o) == (k = "will" => cfg.accL[e][o]) /\ (k = "do" => cfg.accR[e][o])
+FollowUps(e) == {<<e, k, o>> : k \in {"will", "wont", "do", "dont"}, o \in Opts}
+Follow(e, d) == IF d = 0 \/ ~cfg.reent \/ NextId > cfg.maxreq THEN reent' = <<>>
+                ELSE reent' \in {<<>>} \cup {f \in FollowUps(e) : Allowed(e, f[2], f[3])}
 RecvEv(e, sent, fired, exc) ==
     [e |-> "recv", p |-> e, m |-> HeadMsg(e), sent |-> sent, fired |-> fired, exc |-> exc]
 One(c, o) == << <<c, o>> >>
@@ -104,7 +119,7 @@ WillNoFalse(e) == /\ Has(e, "WILL")
        /\ IF cfg.accR[e][o]
           THEN him' = [him EXCEPT ![e][o].st = "yes"] /\ Emit(RecvEv(e, One("DO", o), <<>>, ""))
           ELSE UNCHANGED him /\ Emit(RecvEv(e, One("DONT", o), <<>>, ""))
-    /\ UNCHANGED <<cfg, us>>
+    /\ UNCHANGED <<cfg, us, reent>>
 WillNoTrue(e) == /\ Has(e, "WILL")
     /\ LET o == HeadMsg(e)[2]  d == him[e][o].d IN
        /\ HimIs(e, o, "no", TRUE)
@@ -112,38 +127,41 @@ WillNoTrue(e) == /\ Has(e, "WILL")
        /\ Emit(RecvEv(e, <<>>, FireOf(d, "True"),
                       IF d = 0 THEN "AttributeError" ELSE IF cfg.accR[e][o] THEN "" ELSE "AssertionError"))
     /\ UNCHANGED <<cfg, us>>
+    /\ Follow(e, him[e][HeadMsg(e)[2]].d)
 WillYesFalse(e) == /\ Has(e, "WILL")
     /\ HimIs(e, HeadMsg(e)[2], "yes", FALSE)
     /\ Emit(RecvEv(e, <<>>, <<>>, ""))
-    /\ UNCHANGED <<cfg, us, him>>
+    /\ UNCHANGED <<cfg, us, him, reent>>
 WillYesTrue(e) == /\ Has(e, "WILL")            \* "can never be entered": assert False
     /\ HimIs(e, HeadMsg(e)[2], "yes", TRUE)
     /\ Emit(RecvEv(e, <<>>, <<>>, "AssertionError"))
-    /\ UNCHANGED <<cfg, us, him>>
+    /\ UNCHANGED <<cfg, us, him, reent>>
 
 \* ---- WONT: about him
 WontNoFalse(e) == /\ Has(e, "WONT")
     /\ HimIs(e, HeadMsg(e)[2], "no", FALSE)
     /\ Emit(RecvEv(e, <<>>, <<>>, ""))
-    /\ UNCHANGED <<cfg, us, him>>
+    /\ UNCHANGED <<cfg, us, him, reent>>
 WontNoTrue(e) == /\ Has(e, "WONT")
     /\ LET o == HeadMsg(e)[2]  d == him[e][o].d IN
        /\ HimIs(e, o, "no", TRUE)
        /\ him' = [him EXCEPT ![e][o] = [st |-> "no", neg |-> FALSE, d |-> 0]]
        /\ Emit(RecvEv(e, <<>>, FireOf(d, "OptionRefused"), NoneExc(d)))
     /\ UNCHANGED <<cfg, us>>
+    /\ Follow(e, him[e][HeadMsg(e)[2]].d)
 WontYesFalse(e) == /\ Has(e, "WONT")
     /\ LET o == HeadMsg(e)[2] IN
        /\ HimIs(e, o, "yes", FALSE)
        /\ him' = [him EXCEPT ![e][o].st = "no"]
        /\ Emit(RecvEv(e, One("DONT", o), <<>>, ""))
-    /\ UNCHANGED <<cfg, us>>
+    /\ UNCHANGED <<cfg, us, reent>>
 WontYesTrue(e) == /\ Has(e, "WONT")
     /\ LET o == HeadMsg(e)[2]  d == him[e][o].d IN
        /\ HimIs(e, o, "yes", TRUE)
        /\ him' = [him EXCEPT ![e][o] = [st |-> "no", neg |-> FALSE, d |-> 0]]
        /\ Emit(RecvEv(e, <<>>, FireOf(d, "True"), NoneExc(d)))
     /\ UNCHANGED <<cfg, us>>
+    /\ Follow(e, him[e][HeadMsg(e)[2]].d)
 
 \* ---- DO: about us
 DoNoFalse(e) == /\ Has(e, "DO")
@@ -152,45 +170,48 @@ DoNoFalse(e) == /\ Has(e, "DO")
        /\ IF cfg.accL[e][o]
           THEN us' = [us EXCEPT ![e][o].st = "yes"] /\ Emit(RecvEv(e, One("WILL", o), <<>>, ""))
           ELSE UNCHANGED us /\ Emit(RecvEv(e, One("WONT", o), <<>>, ""))
-    /\ UNCHANGED <<cfg, him>>
+    /\ UNCHANGED <<cfg, him, reent>>
 DoNoTrue(e) == /\ Has(e, "DO")
     /\ LET o == HeadMsg(e)[2]  d == us[e][o].d IN
        /\ UsIs(e, o, "no", TRUE)
        /\ us' = [us EXCEPT ![e][o] = [st |-> "yes", neg |-> FALSE, d |-> 0]]
        /\ Emit(RecvEv(e, <<>>, FireOf(d, "True"), NoneExc(d)))
     /\ UNCHANGED <<cfg, him>>
+    /\ Follow(e, us[e][HeadMsg(e)[2]].d)
 DoYesFalse(e) == /\ Has(e, "DO")
     /\ UsIs(e, HeadMsg(e)[2], "yes", FALSE)
     /\ Emit(RecvEv(e, <<>>, <<>>, ""))
-    /\ UNCHANGED <<cfg, us, him>>
+    /\ UNCHANGED <<cfg, us, him, reent>>
 DoYesTrue(e) == /\ Has(e, "DO")                \* "can never be entered": assert False
     /\ UsIs(e, HeadMsg(e)[2], "yes", TRUE)
     /\ Emit(RecvEv(e, <<>>, <<>>, "AssertionError"))
-    /\ UNCHANGED <<cfg, us, him>>
+    /\ UNCHANGED <<cfg, us, him, reent>>
 
 \* ---- DONT: about us
 DontNoFalse(e) == /\ Has(e, "DONT")
     /\ UsIs(e, HeadMsg(e)[2], "no", FALSE)
     /\ Emit(RecvEv(e, <<>>, <<>>, ""))
-    /\ UNCHANGED <<cfg, us, him>>
+    /\ UNCHANGED <<cfg, us, him, reent>>
 DontNoTrue(e) == /\ Has(e, "DONT")
     /\ LET o == HeadMsg(e)[2]  d == us[e][o].d IN
        /\ UsIs(e, o, "no", TRUE)
        /\ us' = [us EXCEPT ![e][o] = [st |-> "no", neg |-> FALSE, d |-> 0]]
        /\ Emit(RecvEv(e, <<>>, FireOf(d, "OptionRefused"), NoneExc(d)))
     /\ UNCHANGED <<cfg, him>>
+    /\ Follow(e, us[e][HeadMsg(e)[2]].d)
 DontYesFalse(e) == /\ Has(e, "DONT")
     /\ LET o == HeadMsg(e)[2] IN
        /\ UsIs(e, o, "yes", FALSE)
        /\ us' = [us EXCEPT ![e][o].st = "no"]
        /\ Emit(RecvEv(e, One("WONT", o), <<>>, ""))
-    /\ UNCHANGED <<cfg, him>>
+    /\ UNCHANGED <<cfg, him, reent>>
 DontYesTrue(e) == /\ Has(e, "DONT")
     /\ LET o == HeadMsg(e)[2]  d == us[e][o].d IN
        /\ UsIs(e, o, "yes", TRUE)
        /\ us' = [us EXCEPT ![e][o] = [st |-> "no", neg |-> FALSE, d |-> 0]]
        /\ Emit(RecvEv(e, <<>>, FireOf(d, "True"), NoneExc(d)))
     /\ UNCHANGED <<cfg, him>>
+    /\ Follow(e, us[e][HeadMsg(e)[2]].d)
 
 Recv(e) == \/ WillNoFalse(e) \/ WillNoTrue(e) \/ WillYesFalse(e) \/ WillYesTrue(e)
            \/ WontNoFalse(e) \/ WontNoTrue(e) \/ WontYesFalse(e) \/ WontYesTrue(e)
@@ -200,9 +221,9 @@ Recv(e) == \/ WillNoFalse(e) \/ WillNoTrue(e) \/ WillYesFalse(e) \/ WillYesTrue(
 (* Nothing in flight: the two sides' views of every option are compared. *)
 Quiescent == obs.chan[1] = <<>> /\ obs.chan[2] = <<>>
 StView == [e \in E2 |-> [o \in Opts |-> <<us[e][o].st = "yes", him[e][o].st = "yes">>]]
-Quiet == /\ Quiescent
+Quiet == /\ Quiescent /\ reent = <<>>
          /\ Emit([e |-> "quiet", st |-> StView])
-         /\ UNCHANGED <<cfg, us, him>>
+         /\ UNCHANGED <<cfg, us, him, reent>>
 
 Kinds == {"will", "wont", "do", "dont"}
 Next == \/ \E e \in E2, o \in Opts : WillBusy(e, o)
